@@ -851,7 +851,8 @@ def prims_var(
         numel_float = op.CastLike(op.ReduceProd(dim_size, keepdims=False), inp)
         mul = op.Mul(var, numel_float)
         # Subtract the correction value
-        sub = op.Sub(numel_float, op.CastLike(correction, inp))
+        # PyTorch divides by max(0, N - correction)
+        sub = op.Max(op.Sub(numel_float, op.CastLike(correction, inp)), op.CastLike(0.0, inp))
         var = op.Div(mul, sub)
 
     if output_dtype is not None and output_dtype != -1:
